@@ -18,6 +18,72 @@ RS = "swimos_rocks_store"
 SA = "swimos_server_app"
 
 
+def _reaches_fn(crate, body, name, depth=3):
+    """does `body` call (within a few local calls) a function called `name`?"""
+    seen, work = set(), [(body, 0)]
+    while work:
+        b, d = work.pop()
+        if b.defpath in seen:
+            continue
+        seen.add(b.defpath)
+        for c in b.calls:
+            if c.name == name or c.via_name == name:
+                return True
+            if d < depth and c.defpath and c.defpath in crate.by_def:
+                try:
+                    work.append((crate.body(c.defpath), d + 1))
+                except Exception:
+                    pass
+    return False
+
+
+def delete_map_range(r, ctx, rs):
+    """clear_map removes exactly one lane's entries: the range runs from the lane's key prefix to [MAP_TAG][same lane id][UBOUND] in the map keyspace.
+    (Lane ids are written little-endian, so `the next lane's prefix` is not an upper bound: it also covers lanes id+256, id+512, ..)"""
+    dm = ctx.saw(rs.fn(name="delete_map", self_adt="plane::SwimPlaneStore"))
+    dr = [c for c in dm.calls if c.via_name == "delete_key_range"]
+    if len(dr) != 1:
+        raise AnchorMissing("SwimPlaneStore::delete_map: expected one delete_key_range call, found %d" % len(dr))
+    c = dr[0]
+    lane = [i for i in range(1, dm.argc + 1) if dm.locals[i].lstrip("&") == "u64"]
+    lo, hi = describe_operand(dm, c.args[2]), describe_operand(dm, c.args[3])
+    r.check("KeyspaceName::Map" in describe_operand(dm, c.args[1]), "delete_map/keyspace", c.loc(), "the range delete runs in the map keyspace", "clear_map deletes from %s" % describe_operand(dm, c.args[1])[:60])
+    # the function that builds the upper bound, and the lane id it is given
+    ub_calls = [x for x in dm.calls if x.defpath and x.defpath in rs.by_def and x.name not in ("delete_key_range",) and x.name + "(" in hi]
+    ub_ok = False
+    for x in ub_calls:
+        try:
+            xb = rs.body(x.defpath)
+        except Exception:
+            continue
+        if (x.name == "write_map_ubound" or _reaches_fn(rs, xb, "write_map_ubound")) and x.args and lane and dm.copy_root(x.args[0]) == lane[0]:
+            ub_ok = True
+    r.check(ub_ok, "delete_map/range", c.loc(), "clear_map deletes [prefix(lane), [MAP_TAG][lane][UBOUND]) - the bound is built by write_map_ubound from the same lane id",
+            "the upper bound of clear_map's range delete is `%s`, not the UBOUND key of the same lane: lane ids are little-endian, so any other bound (e.g. the next id's prefix) also deletes the entries of lanes id+256, id+512, .. or leaves entries behind" % hi[:90])
+    r.check("serialize_as_bytes(" in lo and "StoreKey::Map" in lo and "Option::None" in lo and lane and ("arg%d" % lane[0] in lo or (dm.var_name(lane[0]) or "?") in lo), "delete_map/lower-bound", c.loc(),
+            "the range starts at the lane's own prefix (StoreKey::Map{lane_id, key: None})", "the lower bound of clear_map's range delete is `%s`" % lo[:90])
+
+
+def store_wrapper_table(r, ctx, rs):
+    want = {"get_value": ("get", "Value"), "put_value": ("put", "Value"), "delete_value": ("delete", "Value"),
+            "update_map": ("put", "Map"), "remove_map": ("delete", "Map"), "clear_map": ("delete_map", None), "read_map": ("ranged_snapshot_consumer", "Map")}
+    for m, (op, var) in want.items():
+        b = ctx.saw(rs.fn(name=m, self_adt="agent::StoreWrapper", trait="swimos_api::persistence::NodePersistence"))
+        ops = [c for c in b.calls if c.via_name in ("get", "put", "delete", "delete_map", "ranged_snapshot_consumer") and ("StoreEngine" in (c.trait or "") or "NodeStore" in (c.trait or ""))]
+        keys = [a[4] for a in aggregates(b, "server::StoreKey")]
+        r.check(len(ops) == 1 and ops[0].via_name == op and (var is None or keys == [var]), "StoreWrapper::%s" % m, where(b), "%s -> %s(%s)" % (m, op, var or "lane id"),
+                "%s calls %s with key %s" % (m, [c.via_name for c in ops], keys))
+        if var == "Map" and m != "read_map":
+            ag = [a for a in aggregates(b, "server::StoreKey", "Map")][0]
+            kd = describe_operand(b, ag[2][1])
+            r.check(kd.startswith("Option::Some(") and "key" in kd, "StoreWrapper::%s/key-carried" % m, b.loc(ag[3]), "the map key is carried in the StoreKey (%s)" % kd[:50])
+        if m == "read_map":
+            ag = [a for a in aggregates(b, "server::StoreKey", "Map")][0]
+            r.check(describe_operand(b, ag[2][1]) == "Option::None()", "StoreWrapper::read_map/prefix-only", b.loc(ag[3]), "read_map scans with the lane prefix only (key: None)")
+    lo = ctx.saw(rs.fn(name="lane_id_of", self_adt="agent::SwimNodeStore"))
+    r.check(any(c.via_name == "node_id_of" for c in lo.calls), "lane_id_of/delegates", where(lo), "lane ids come from the plane's key store")
+
+
 def run(ctx):
     rs = ctx.crate(RS)
 
@@ -79,10 +145,7 @@ def run(ctx):
             v = [l for d, l, _ in dom_guards(rc, a[0]) if d.startswith("disc(prefix")]
             ns[v[0] if v else "?"] = a[4]
         r.check(ns == {"Map": "Map", "Value": "Value"}, "ranged_snapshot_consumer/routing", where(rc), "range reads use the keyspace of the key's kind", "range routing: %s" % ns)
-        dm = ctx.saw(rs.fn(name="delete_map", self_adt="plane::SwimPlaneStore"))
-        dr = [c for c in dm.calls if c.via_name == "delete_key_range"]
-        r.check(len(dr) == 1 and "KeyspaceName::Map" in describe_operand(dm, dr[0].args[1]) and "map_ubound_bytes(" in describe_operand(dm, dr[0].args[3]) and "serialize_as_bytes(" in describe_operand(dm, dr[0].args[2]), "delete_map/range", where(dm),
-                "clear_map deletes [prefix(lane), ubound(lane)) in the map keyspace")
+        delete_map_range(r, ctx, rs)
         nm = ctx.saw(rs.fn(name="name", self_adt="store::KeyspaceName"))
         nt = {}
         for i, j, p, rv, line in nm.assigns():
@@ -95,23 +158,7 @@ def run(ctx):
         r.check(sorted(news) == ["default", "map_lanes", "value_lanes"], "default_keyspaces/column-families", where(dk), "column families opened: %s" % news, "column families opened: %s" % news)
 
     with ctx.rule("C13.R4", "T5", "NodePersistence for StoreWrapper: method -> engine operation and key variant", floor=7) as r:
-        want = {"get_value": ("get", "Value"), "put_value": ("put", "Value"), "delete_value": ("delete", "Value"),
-                "update_map": ("put", "Map"), "remove_map": ("delete", "Map"), "clear_map": ("delete_map", None), "read_map": ("ranged_snapshot_consumer", "Map")}
-        for m, (op, var) in want.items():
-            b = ctx.saw(rs.fn(name=m, self_adt="agent::StoreWrapper", trait="swimos_api::persistence::NodePersistence"))
-            ops = [c for c in b.calls if c.via_name in ("get", "put", "delete", "delete_map", "ranged_snapshot_consumer") and ("StoreEngine" in (c.trait or "") or "NodeStore" in (c.trait or ""))]
-            keys = [a[4] for a in aggregates(b, "server::StoreKey")]
-            r.check(len(ops) == 1 and ops[0].via_name == op and (var is None or keys == [var]), "StoreWrapper::%s" % m, where(b), "%s -> %s(%s)" % (m, op, var or "lane id"),
-                    "%s calls %s with key %s" % (m, [c.via_name for c in ops], keys))
-            if var == "Map" and m != "read_map":
-                ag = [a for a in aggregates(b, "server::StoreKey", "Map")][0]
-                kd = describe_operand(b, ag[2][1])
-                r.check(kd.startswith("Option::Some(") and "key" in kd, "StoreWrapper::%s/key-carried" % m, b.loc(ag[3]), "the map key is carried in the StoreKey (%s)" % kd[:50])
-            if m == "read_map":
-                ag = [a for a in aggregates(b, "server::StoreKey", "Map")][0]
-                r.check(describe_operand(b, ag[2][1]) == "Option::None()", "StoreWrapper::read_map/prefix-only", b.loc(ag[3]), "read_map scans with the lane prefix only (key: None)")
-        lo = ctx.saw(rs.fn(name="lane_id_of", self_adt="agent::SwimNodeStore"))
-        r.check(any(c.via_name == "node_id_of" for c in lo.calls), "lane_id_of/delegates", where(lo), "lane ids come from the plane's key store")
+        store_wrapper_table(r, ctx, rs)
 
     with ctx.rule("C13.R5", "T2", "in-memory store: state handed back on every path of Drop; marked in use when handed out", floor=4) as r:
         sa = ctx.crate(SA)
